@@ -332,14 +332,38 @@ def rule_frame(ctx) -> None:
     cf = ctx.own(SER, "MbootSerialProtocol", "_create_frame")
     cc = ctx.own(SER, "MbootSerialProtocol", "_calc_frame_crc")
     rd = ctx.own(SER, "MbootSerialProtocol", "read")
-    pf = [c for c in A.calls_in(cf.node, "pack")][0]
-    pc = [c for c in A.calls_in(cc.node, "pack")][0]
-    f1, f2 = norm(pf.args[0]), norm(pc.args[0])
-    a1, a2 = [norm(a) for a in pf.args[1:]], [norm(a) for a in pc.args[1:]]
-    ok = f1 == "f'<BBHH{len(data)}B'" and f2 == "f'<BBH{len(data)}B'" and a1 == ["self.FRAME_START_BYTE", "frame_type.tag", "len(data)", "crc", "*data"] and a2 == ["self.FRAME_START_BYTE", "frame_type", "len(data)", "*data"]
-    chk.decide(ok, "C10.frame", f"{SER}::MbootSerialProtocol frame", "frame = start | type | length | crc | payload; CRC input = the same fields without the crc", f"{f1} {a1} / {f2} {a2}", "", A.loc(SER, cf.node))
-    crc_src = A.single_def(cf.node, "crc")
-    chk.decide(crc_src is not None and norm(crc_src) == "self._calc_frame_crc(data, frame_type.tag)", "C10.frame", cf.qual + " crc", "the frame carries the CRC of its own type and payload", norm(crc_src) if crc_src is not None else "", "", A.loc(SER, cf.node))
+    from ..engines import bytelayout
+    fold = lambda e: prog.fold(e, cf.module, cf.cls)  # noqa: E731
+
+    def canon(fields):
+        out = []
+        for f in bytelayout.merge_consts(fields):
+            d = f.desc()
+            if f.kind == "int":
+                out.append((f.size, "int", f.order if f.size and f.size > 1 else "-", f.src))
+            elif f.kind == "const" and f.value is not None and len(f.value) == 1:
+                out.append((1, "int", "-", str(f.value[0])))
+            else:
+                out.append((f.size, f.kind, f.src))
+        return out
+    lay = bytelayout.Layout(fold, cf.node).run(A.body_of(cf.node))
+    sb = str(fold(ast.parse("self.FRAME_START_BYTE").body[0].value))
+    l1 = canon(lay or [])
+    want1 = [(1, "int", "-", sb), (1, "int", "-", "frame_type.tag"), (2, "int", "little", "len(data)"), (2, "int", "little", "self._calc_frame_crc(data, frame_type.tag)"), (None, "bytes", "data")]
+    l1n = [(sz, k, o, sb if src == "self.FRAME_START_BYTE" else src) if k == "int" else (sz, k, o) for (sz, k, o, *rest) in [x if len(x) == 4 else (x[0], x[1], x[2]) for x in l1] for src in [rest[0] if rest else None]]
+    crc_calls = [c for c in ast.walk(cc.node) if isinstance(c, ast.Call) and norm(c.func) == "self._calc_crc"]
+    lay2 = None
+    if len(crc_calls) == 1:
+        L2 = bytelayout.Layout(fold, cc.node)
+        L2.run(A.body_of(cc.node))
+        lay2 = L2.expr(crc_calls[0].args[0])
+    l2 = canon(lay2 or [])
+    l2n = [(sz, k, o, sb if src == "self.FRAME_START_BYTE" else src) if k == "int" else (sz, k, o) for (sz, k, o, *rest) in [x if len(x) == 4 else (x[0], x[1], x[2]) for x in l2] for src in [rest[0] if rest else None]]
+    want2 = [(1, "int", "-", sb), (1, "int", "-", "frame_type"), (2, "int", "little", "len(data)"), (None, "bytes", "data")]
+    chk.decide(l1n == want1 and l2n == want2, "C10.frame", f"{SER}::MbootSerialProtocol frame", "frame = start | type | length(LE16) | crc(LE16) | payload; CRC input = the same fields without the crc (byte layout, however it is assembled)",
+               f"frame layout {l1n}; CRC input layout {l2n}", f"{want1} / {want2}", A.loc(SER, cf.node))
+    crc_calls2 = [norm(c) for c in ast.walk(cf.node) if isinstance(c, ast.Call) and norm(c.func) == "self._calc_frame_crc"]
+    chk.decide(crc_calls2 == ["self._calc_frame_crc(data, frame_type.tag)"], "C10.frame", cf.qual + " crc", "the frame carries the CRC of its own type and payload", f"{crc_calls2}", "", A.loc(SER, cf.node))
     # reader: 2-byte length, 2-byte crc, payload of that length, CRC recomputed over (payload, frame type) and compared -> raise
     reads = [norm(c.args[0]) for c in A.calls_in(rd.node, "_read")]
     chk.decide(reads == ["2", "2", "_length"], "C10.frame", rd.qual + " fields", "reads length(2), crc(2) and exactly `length` payload bytes", f"{reads}", "['2', '2', '_length']", A.loc(SER, rd.node))
